@@ -169,9 +169,12 @@ def run_property(pid: str, tier: str = "quick", seed: int = 0) -> int:
                               "source_sha": E.repo.func_sha(mod_, fn_), "file": str(mod_.path), "line": fn_.lineno})
     except Unsupported as e:
         return undecided(str(e), {"functions": functions})
-    except Exception:
+    except Exception as e:
+        # the engine met a construct its models do not handle gracefully: that is "outside the subset", i.e. undecided
+        # (the bounded stand-in then runs), not a verdict; the traceback is kept in the evidence
         traceback.print_exc()
-        return finish(3, "checker failure during symbolic execution", {"error": traceback.format_exc()[-3000:], "functions": functions})
+        return undecided(f"engine error while executing {label} symbolically ({type(e).__name__}: {str(e)[:160]}) - treated as outside the subset",
+                         {"functions": functions, "engine_error": traceback.format_exc()[-3000:]})
     gen_s = time.time() - t_gen
 
     # lemmas over the contracts
